@@ -76,10 +76,13 @@ def serializer_options(ds, scratch):
             name = os.path.join(work, "o%d_%d.%s" % (di, ci, fmt))
             case = {"name": os.path.basename(name), "format": fmt, "serializer_arguments": {k: repr(v) for k, v in kw.items()}}
             try:
-                want = doc.serialize(format=fmt, **kw)
-                plain = doc.serialize(format=fmt)
-                with mock.patch("builtins.print"):
-                    doc.serialize(name, format=fmt, **kw)
+                import warnings
+                with warnings.catch_warnings():
+                    warnings.simplefilter("ignore")          # rdflib: "NTSerializer always uses UTF-8 encoding"
+                    want = doc.serialize(format=fmt, **kw)
+                    plain = doc.serialize(format=fmt)
+                    with mock.patch("builtins.print"):
+                        doc.serialize(name, format=fmt, **kw)
                 got = open(name, "rb").read().decode("utf-8")
             except Exception as e:
                 fails.append(dict(case, what="serialize to a file name with serializer arguments raised", exc=repr(e)[:200]))
